@@ -35,7 +35,7 @@ def body(c):
         raise vlib.ToolError("negative control: a completion-order collector did not violate Aligned")
 
     # ---- mode G -------------------------------------------------------------------------------
-    maxset = 2 if c.quick else 4
+    maxset = 2 if c.quick else 3
     cfg = c.path("GenCases.cfg")
     with open(cfg, "w") as f:
         f.write("CONSTANT MaxBatch = 3\nCONSTANT MaxSet = %d\nINIT GInit\nNEXT GNext\nINVARIANT Emit\n" % maxset)
@@ -44,11 +44,12 @@ def body(c):
     cases = replay_rows(g)
     if len(cases) != g.distinct:
         raise vlib.ToolError("G printed %d distinct cases for %d states" % (len(cases), g.distinct))
+    nb = 3 if c.quick else 4
     cfg = c.path("GenSched.cfg")
     with open(cfg, "w") as f:
-        f.write("CONSTANT MaxBatch = 3\nCONSTANT MaxSet = 0\nINIT SInit\nNEXT SNext\nINVARIANT SEmit\n")
+        f.write("CONSTANT MaxBatch = %d\nCONSTANT MaxSet = 0\nINIT SInit\nNEXT SNext\nINVARIANT SEmit\n" % nb)
     gs = vlib.run_tlc("conc/Gen_HttpDecode.tla", cfg, workers=8, timeout=1800, keep_lines=50, xmx="4g")
-    c.add_tlc("G schedules (batch machine, <=3 items)", gs)
+    c.add_tlc("G schedules (batch machine, <=%d items)" % nb, gs)
     execs = replay_rows(gs)
     vlib.write_ndjson(c.path("cases.ndjson"), cases)
     vlib.write_ndjson(c.path("exec_cases.ndjson"), execs)
@@ -127,9 +128,9 @@ def body(c):
                      "x {json, GET, multipart} x 3 member-order/extra-member variants; every batch of 1..3 over a pool of 5 x "
                      "{json-batch, multipart-batch} x 2 variants; %d malformed wire forms (broken text, wrong member types, scalars, "
                      "arrays in request position, bad batch elements, bad GET JSON parameters). G(b): every behaviour of the batch "
-                     "machine with <=3 items as an open-gate/poll schedule x transports x {Schema::execute_batch, Executor default}. "
+                     "machine with <=%d items as an open-gate/poll schedule x transports x {Schema::execute_batch, Executor default}. "
                      "non-trivial = not the empty request (decode) / batch of >=2 (exec); distinct by wire form / event list"
-                     % (maxset, expected_err))
+                     % (maxset, expected_err, nb))
     c.cov["per_encoding"] = per_enc
     c.cov["expected_errors"] = expected_err
     c.cov["out_of_order_schedules"] = reordered
